@@ -41,7 +41,7 @@ func (c16Prop) Race() bool    { return false }
 
 func (c16Prop) Count(tier string) int {
 	if tier == "thorough" {
-		return 40000
+		return 150000
 	}
 	return 600
 }
